@@ -8,6 +8,8 @@ test; the functions read no global state.
 """
 import os
 
+import re
+
 from .. import facts, expr as X, hashnf
 from ..report import Check
 from ..facts import VERIF, AnalysisBroken
@@ -90,6 +92,11 @@ def run(tier="quick"):
             try:
                 nf, ev = hashnf.summarise(fn)
             except hashnf.Unsupported as e:
+                m_ = re.search(r"kind call \((\w+)\(", str(e))
+                if m_ and m_.group(1) in u.functions:
+                    # a helper of the same file: the normaliser does not inline calls, so this function cannot be decided
+                    raise AnalysisBroken("%s calls the helper %s(); HASHNF does not inline helpers, so equality with the published "
+                                         "definition can be neither established nor refuted" % (impl, m_.group(1)))
                 chk.ob("H1", impl, site, False, loc=fn.loc(fn.body),
                        detail="%s uses a construct outside the normaliser's term algebra (%s); equality with the published "
                               "definition cannot be established" % (impl, e))
